@@ -60,6 +60,7 @@ class Inliner:
         self.max_stmts = max_stmts
         self.n = 0
         self.inlined = []        # names of callees inlined (evidence)
+        self.flatten = True
 
     # -- resolution ------------------------------------------------------------
     def _resolve(self, call):
@@ -225,6 +226,27 @@ class Inliner:
             b._inline_param = True
             pre.append(b)
         body = self._block(body, stack + (name,), depth + 1)
+        # a body whose only `return` is its last top-level statement (or
+        # that never returns a value) is straight-line code: splice it in,
+        # so that the bound name is an ordinary local of the caller
+        rets = [n for s in body for n in _walk_stmts(s)
+                if isinstance(n, ast.Return)]
+        if self.flatten and (not rets or (
+                len(rets) == 1 and body and rets[0] is body[-1])) and not any(
+                    isinstance(s, InlineBlock) for s in body):
+            out = pre + (body[:-1] if rets else body)
+            val = rets[0].value if rets else None
+            if target is not None:
+                out.append(ast.copy_location(ast.Assign(
+                    [acopy(target)],
+                    val if val is not None else ast.Constant(None)), at))
+            elif val is not None and not isinstance(
+                    val, (ast.Constant, ast.Name)):
+                out.append(ast.copy_location(ast.Expr(val), at))
+            for s in out:
+                ast.fix_missing_locations(s)
+            self.inlined.append(name)
+            return out
         blk = InlineBlock(body=pre + body)
         ast.copy_location(blk, at)
         blk.target = target
@@ -450,11 +472,11 @@ class Inliner:
         if isinstance(s, ast.Expr):
             b = self._try_inline(s.value, None, stack, depth, s)
             if b is not None:
-                return [b]
+                return _aslist(b)
         if isinstance(s, ast.Assign) and len(s.targets) == 1:
             b = self._try_inline(s.value, s.targets[0], stack, depth, s)
             if b is not None:
-                return [b]
+                return _aslist(b)
         if isinstance(s, ast.Return) and s.value is not None:
             tmp = "__ret_%d" % (self.n + 1)
             b = self._try_inline(s.value, ast.Name(tmp, ast.Store()), stack,
@@ -462,7 +484,7 @@ class Inliner:
             if b is not None:
                 r = ast.copy_location(ast.Return(ast.Name(tmp, ast.Load())),
                                       s)
-                return [b, r]
+                return _aslist(b) + [r]
         if isinstance(s, ast.If):
             tmp = "__test_%d" % (self.n + 1)
             t = s.test
@@ -475,8 +497,12 @@ class Inliner:
                 nm = ast.Name(tmp, ast.Load())
                 s.test = ast.copy_location(
                     ast.UnaryOp(ast.Not(), nm) if neg else nm, s.test)
-                return [b, s]
+                return _aslist(b) + [s]
         return [s]
+
+
+def _aslist(b):
+    return b if isinstance(b, list) else [b]
 
 
 class _Renamer2(ast.NodeTransformer):
